@@ -6,6 +6,7 @@ import (
 	"os"
 	"path/filepath"
 	"sort"
+	"strconv"
 	"strings"
 	"sync"
 	"testing"
@@ -35,6 +36,7 @@ import (
 //	       POINT <Args>; return n+1 (EVAL or EVALSHA, possibly TIMEOUT-wrapped)
 //	pipe   several reads written to the socket in ONE segment; their replies
 //	       come back together after the last one was executed
+//	pause  the client sleeps Args[0] milliseconds
 type hop struct {
 	Kind    string     `json:"kind"`
 	Args    []string   `json:"args,omitempty"`
@@ -46,7 +48,11 @@ type hop struct {
 }
 
 type hprogram struct {
-	Spin    bool    `json:"spinlock"`
+	Spin bool `json:"spinlock"`
+	// Expiry: objects carry deadlines of a fraction of a second; the
+	// background sweeper's `del key id` records are writes of the log that
+	// belong to no client (see TestC07_Expiry).
+	Expiry  bool    `json:"expiry,omitempty"`
 	Clients [][]hop `json:"clients"`
 }
 
@@ -443,6 +449,11 @@ func runHistory(p hprogram) (obs [][]hobs, log [][]string, final *t38.Dump, err 
 			c := h.conns[ci]
 			<-start
 			for oi, o := range p.Clients[ci] {
+				if o.Kind == "pause" {
+					ms, _ := strconv.Atoi(o.Args[0])
+					time.Sleep(time.Duration(ms) * time.Millisecond)
+					continue
+				}
 				w := o.wire()
 				if o.Kind == "pipe" {
 					var buf []byte
@@ -508,6 +519,10 @@ func runHistory(p hprogram) (obs [][]hobs, log [][]string, final *t38.Dump, err 
 	for _, c := range cmds {
 		log = append(log, c.Args)
 	}
+	if p.Expiry {
+		// objects keep expiring after the log was read: no final comparison
+		return obs, log, nil, nil
+	}
 	final, e = t38.TakeDumpOn(h.ctl)
 	if e != nil {
 		return nil, nil, nil, e
@@ -531,6 +546,7 @@ type hstats struct {
 	atomicGroups, evalnaSplit   int
 	loggedNoop, unsupported     int
 	timeoutOps, pipes, incrs    int
+	sweeperDels, readsAroundDel int
 	abstract                    string
 }
 
@@ -669,6 +685,13 @@ func checkHistory(p hprogram, obs [][]hobs, log [][]string, final *t38.Dump) (*h
 				u.args = e
 			}
 		}
+		if u == nil && p.Expiry && len(e) == 3 && e[0] == "del" {
+			// the expiry sweeper's record: a write without a client and
+			// without a real-time interval
+			owner[pos] = &unit{client: -1, op: -1, inner: -1, args: e, pos: pos}
+			st.sweeperDels++
+			continue
+		}
 		if u == nil {
 			return viol("log-entry-unknown", "log position %d holds %s, which no client issued as a write (client tag %d)", pos, t38.CmdString(e), clientOfName(e[0]))
 		}
@@ -691,6 +714,9 @@ func checkHistory(p hprogram, obs [][]hobs, log [][]string, final *t38.Dump) (*h
 		}
 		if !r.Mutated {
 			st.loggedNoop++
+			if owner[pos].client < 0 {
+				return viol("sweeper-del-of-missing-object", "log position %d holds the sweeper's %s, but replaying the log there is no such object at that point", pos, t38.CmdString(e))
+			}
 		}
 		S[pos+1], R[pos] = db, r
 	}
@@ -699,6 +725,9 @@ func checkHistory(p hprogram, obs [][]hobs, log [][]string, final *t38.Dump) (*h
 	var maxSendAt int
 	for pos := 0; pos < n; pos++ {
 		u := owner[pos]
+		if u.client < 0 {
+			continue
+		}
 		ob := obs[u.client][u.op]
 		if ob.Recv < maxSend {
 			w := owner[maxSendAt]
@@ -730,7 +759,11 @@ func checkHistory(p hprogram, obs [][]hobs, log [][]string, final *t38.Dump) (*h
 				for i := 1; i < len(ps); i++ {
 					if ps[i] != ps[i-1]+1 {
 						f := owner[ps[i-1]+1]
-						return viol("script-not-atomic", "%s: its writes are logged at %v with a foreign write in between (%s)", opName(ci, oi), ps, opName(f.client, f.op))
+						fn := "the expiry sweeper's " + t38.CmdString(f.args)
+						if f.client >= 0 {
+							fn = opName(f.client, f.op)
+						}
+						return viol("script-not-atomic", "%s: its writes are logged at %v with a foreign write in between (%s)", opName(ci, oi), ps, fn)
 					}
 					inside[ps[i]] = true
 				}
@@ -746,7 +779,7 @@ func checkHistory(p hprogram, obs [][]hobs, log [][]string, final *t38.Dump) (*h
 		lo, hi = 0, n
 		for pos := 0; pos < n; pos++ {
 			u := owner[pos]
-			if u.client == ci && u.op == oi {
+			if u.client < 0 || (u.client == ci && u.op == oi) {
 				continue
 			}
 			w := obs[u.client][u.op]
@@ -801,6 +834,7 @@ func checkHistory(p hprogram, obs [][]hobs, log [][]string, final *t38.Dump) (*h
 			ob := obs[ci][oi]
 			us := opUnits[[2]int{ci, oi}]
 			switch o.Kind {
+			case "pause":
 			case "cmd":
 				name := strings.ToLower(o.Args[0])
 				if len(us) == 1 && us[0].pos >= 0 {
@@ -995,6 +1029,12 @@ func checkHistory(p hprogram, obs [][]hobs, log [][]string, final *t38.Dump) (*h
 			if cands > 1 || tk.hi > lower {
 				st.wideWindows++
 			}
+			for pos := tk.lo; pos < tk.hi && pos < n; pos++ {
+				if owner[pos].client < 0 {
+					st.readsAroundDel++
+					break
+				}
+			}
 			continue
 		}
 		if cands == 0 {
@@ -1036,6 +1076,9 @@ func checkHistory(p hprogram, obs [][]hobs, log [][]string, final *t38.Dump) (*h
 				}
 			}
 			sp := span{ci: ci, send: ob.Send, recv: ob.Recv}
+			if o.Kind == "pause" {
+				continue
+			}
 			if o.Kind == "cmd" {
 				sp.keys = keysOf(o.Args)
 				sp.multi = nlogged > 0 && multiObject(o.Args)
@@ -1071,7 +1114,11 @@ func checkHistory(p hprogram, obs [][]hobs, log [][]string, final *t38.Dump) (*h
 	}
 	var ab strings.Builder
 	for _, u := range owner {
-		fmt.Fprintf(&ab, "%d:%s:%s;", u.client, strings.ToLower(u.args[0]), strings.Join(keysOf(u.args), ","))
+		what := strings.Join(keysOf(u.args), ",")
+		if p.Expiry && len(u.args) > 2 {
+			what = u.args[2]
+		}
+		fmt.Fprintf(&ab, "%d:%s:%s;", u.client, strings.ToLower(u.args[0]), what)
 	}
 	st.abstract = ab.String()
 	return nil, st, nil
@@ -1118,8 +1165,17 @@ type pcIn struct {
 	op hop
 }
 
-func porcupineCheck(p hprogram, obs [][]hobs, timeout time.Duration) porcupine.CheckResult {
+func porcupineCheck(p hprogram, obs [][]hobs, log [][]string, timeout time.Duration) porcupine.CheckResult {
 	m, ops := porcupineModel(p, obs)
+	if p.Expiry {
+		// the sweeper's records are writes of nobody: steps that may take
+		// place at any time
+		for _, e := range log {
+			if len(e) == 3 && e[0] == "del" {
+				ops = append(ops, porcupine.Operation{ClientId: len(p.Clients), Input: pcIn{hop{Kind: "cmd", Args: e}}, Call: -1, Return: 1 << 62})
+			}
+		}
+	}
 	return porcupine.CheckOperationsTimeout(m, ops, timeout)
 }
 
@@ -1190,6 +1246,9 @@ func porcupineModel(p hprogram, obs [][]hobs) (porcupine.Model, []porcupine.Oper
 	var ops []porcupine.Operation
 	for ci, cl := range p.Clients {
 		for oi, o := range cl {
+			if o.Kind == "pause" {
+				continue
+			}
 			if o.Kind == "pipe" {
 				// every read is its own step inside the segment's interval
 				// (their order is left free: a relaxation)
@@ -1285,7 +1344,7 @@ func historyCase(t ev.Failer, c *ev.Collector, p hprogram, porcu bool) {
 	}
 	if v != nil {
 		what := v.What
-		switch porcupineCheck(p, obs, 5*time.Second) {
+		switch porcupineCheck(p, obs, log, 5*time.Second) {
 		case porcupine.Illegal:
 			what += " [porcupine: the replies have no linearization at all]"
 		case porcupine.Ok:
@@ -1300,14 +1359,23 @@ func historyCase(t ev.Failer, c *ev.Collector, p hprogram, porcu bool) {
 	if st.multiObjConcurrentWithRead {
 		c.Label("multi-object-write-concurrent-with-read")
 	}
-	if st.overlapWritersSameKey && st.multiObjConcurrentWithRead {
+	if p.Expiry {
+		c.LabelN("sweeper-records", st.sweeperDels)
+		c.LabelN("reads-whose-window-spans-a-sweeper-record", st.readsAroundDel)
+		if st.sweeperDels > 0 && st.readsAroundDel > 0 {
+			c.NonTrivial(st.abstract)
+			if c.WantSample() {
+				c.Sample(map[string]any{"clients": len(p.Clients), "ops": nops, "logged": st.logged, "sweeper_records": st.sweeperDels, "reads_around_a_sweeper_record": st.readsAroundDel})
+			}
+		}
+	} else if st.overlapWritersSameKey && st.multiObjConcurrentWithRead {
 		c.NonTrivial(st.abstract)
 		if c.WantSample() {
 			c.Sample(map[string]any{"clients": len(p.Clients), "ops": nops, "logged": st.logged, "reads": st.reads, "wide_windows": st.wideWindows, "log_head": gen.Describe(log[:min(len(log), 6)])})
 		}
 	}
 	if porcu {
-		switch porcupineCheck(p, obs, 3*time.Second) {
+		switch porcupineCheck(p, obs, log, 3*time.Second) {
 		case porcupine.Ok:
 			c.Label("porcupine:ok")
 		case porcupine.Unknown:
@@ -1337,6 +1405,107 @@ func TestC07_History(t *testing.T) {
 		c.Case()
 		i++
 		historyCase(rt, c, p, i%20 == 0 || os.Getenv("C07_PORCUPINE_ALL") != "")
+	})
+}
+
+// ---- expiring objects --------------------------------------------------------
+
+const expKey = "ke"
+
+var expIDs = []string{"e0", "e1", "e2", "e3", "e4", "e5", "e6", "e7"}
+
+// drawExpiryProgram draws a history in which the objects of one collection
+// live for 20-90 ms, so that the background sweeper deletes them while the
+// clients read them with every kind of read and conditional write. Client
+// numbers start at 1: the all-lower-case spelling "del" is the sweeper's.
+func drawExpiryProgram(rt *rapid.T, maxClients, maxOps int) hprogram {
+	p := hprogram{Expiry: true, Spin: rapid.Bool().Draw(rt, "spinlock")}
+	n := rapid.IntRange(2, maxClients).Draw(rt, "clients")
+	pick := func(label string, xs []string) string { return rapid.SampledFrom(xs).Draw(rt, label) }
+	coord := func() string { return strconv.Itoa(rapid.IntRange(-80, 80).Draw(rt, "coord")) }
+	ttl := func() string {
+		return strconv.FormatFloat(float64(rapid.IntRange(20, 90).Draw(rt, "ttl_ms"))/1000, 'f', 3, 64)
+	}
+	read := func(id string) []string {
+		switch rapid.IntRange(0, 7).Draw(rt, "readkind") {
+		case 0, 1:
+			return []string{"GET", expKey, id}
+		case 2:
+			return []string{"EXISTS", expKey, id}
+		case 3:
+			return []string{"TTL", expKey, id}
+		case 4:
+			return []string{"FGET", expKey, id, "f"}
+		case 5:
+			return []string{"SCAN", expKey, "IDS"}
+		case 6:
+			return []string{"GET", expKey, id, "WITHFIELDS"}
+		default:
+			return []string{"SCAN", expKey, "COUNT"}
+		}
+	}
+	for ci := 0; ci < n; ci++ {
+		tg := &tagger{client: ci + 1, used: map[string]int{}}
+		nops := rapid.IntRange(maxOps/2, maxOps).Draw(rt, "nops")
+		var ops []hop
+		add := func(cmd []string) {
+			if c, ok := tg.tag(cmd); ok {
+				ops = append(ops, hop{Kind: "cmd", Args: c})
+			}
+		}
+		for i := 0; i < nops; i++ {
+			id := pick("id", expIDs)
+			switch k := rapid.IntRange(0, 39).Draw(rt, "opkind"); {
+			case k < 5:
+				add([]string{"SET", expKey, id, "FIELD", "f", strconv.Itoa(rapid.IntRange(1, 99).Draw(rt, "f")), "EX", ttl(), "POINT", coord(), coord()})
+			case k < 6:
+				if rapid.IntRange(0, 3).Draw(rt, "permanent?") == 0 {
+					add([]string{"SET", expKey, id, "POINT", coord(), coord()})
+				} else {
+					add([]string{"PERSIST", expKey, id})
+				}
+			case k < 9:
+				// refused while the object exists, expired-but-unswept included
+				add([]string{"SET", expKey, id, "EX", ttl(), "NX", "POINT", coord(), coord()})
+			case k < 10:
+				add([]string{"EXPIRE", expKey, id, ttl()})
+			case k < 11:
+				add([]string{"FSET", expKey, id, "f", strconv.Itoa(rapid.IntRange(100, 999).Draw(rt, "f2"))})
+			case k < 12:
+				add([]string{"DEL", expKey, id})
+			case k < 19:
+				ops = append(ops, hop{Kind: "cmd", Args: read(id)})
+			case k < 26:
+				// reads of ONE id in one segment: executed back to back
+				o := hop{Kind: "pipe"}
+				nr := rapid.IntRange(2, 3).Draw(rt, "nreads")
+				for j := 0; j < nr; j++ {
+					o.Reads = append(o.Reads, read(id))
+				}
+				ops = append(ops, o)
+			default:
+				ops = append(ops, hop{Kind: "pause", Args: []string{strconv.Itoa(rapid.IntRange(2, 20).Draw(rt, "pause_ms"))}})
+			}
+		}
+		p.Clients = append(p.Clients, ops)
+	}
+	return p
+}
+
+// TestC07_Expiry: the histories of TestC07_History with short deadlines. The
+// sweeper's DEL is just another write of the log; whatever a client is told
+// about an object around its deadline, by whichever command, must fit one
+// position relative to that record.
+func TestC07_Expiry(t *testing.T) {
+	c := ev.New("C07", "expiry", "exploration")
+	t.Cleanup(c.Flush)
+	c.Rule("2-4 clients work on eight ids of one collection whose objects are SET with deadlines of 20-90 ms (also EXPIRE, PERSIST, FSET, DEL, SET without deadline, SET NX) and read them with GET, GET WITHFIELDS, EXISTS, TTL, FGET, SCAN IDS and SCAN COUNT, singly and as 2-3 reads of one id written in one segment, with pauses of 2-20 ms (a third of the steps), while the background sweeper (every 100 ms) deletes what has expired. Oracle: the log-order check of the history sub-check, in which the sweeper's `del key id` records are writes without a client and without a real-time interval; in particular two reads in real-time order (or in one segment) must not place themselves on opposite sides of a logged write, and a sweeper record must delete an object that exists at its log position. Non-trivial: the log holds a sweeper record AND a read's real-time window spans one; distinct by the log's sequence of (client, command, id).")
+	c.Assume("a history ends before its objects' deadlines are all past: no final-state comparison in this sub-check")
+	ev.Rapid("expiry", ev.Pick(12, 100))
+	rapid.Check(t, func(rt *rapid.T) {
+		p := drawExpiryProgram(rt, 4, ev.Pick(220, 300))
+		c.Case()
+		historyCase(rt, c, p, os.Getenv("C07_PORCUPINE_ALL") != "")
 	})
 }
 
